@@ -68,6 +68,7 @@ DESIGN_REF = "DESIGN.md 4 C08"
 REQUIRED_REACH = ["monotone", "nan_last", "fixed_groups", "subtotal_group", "fallback",
                   "same_set", "class:rows", "class:cols", "class:strand",
                   "class:kind=opposing_element", "class:kind=opposing_insertion",
+                  "class:opposing_key_respelled",
                   "class:kind=marginal", "class:kind=label", "class:kind=univariate_measure",
                   "class:ascending", "class:descending", "class:unresolvable",
                   "class:infinite_sort_value"]
@@ -189,6 +190,22 @@ def make_case(unit):
             fixed["bottom"] = bottom
         if fixed:
             order["fixed"] = fixed
+    opposing_alias = None
+    if order.get("type") == "opposing_element" and od is not None and \
+            o.facets[od][0] in ("mr", "ca_items", "numarr") and \
+            order.get("element_id") in oids and gen.stratum(ID, i, "spell", 2):
+        # the key spelled as a sub-variable id or an element id (int / digit string) instead
+        # of the alias: the spellings C19 shows to be equivalent; the column meant is the same
+        from .c19 import _spellings
+
+        orole, ovar = o.facets[od]
+        sp = _spellings(orole, ovar)[oids.index(order["element_id"])]
+        aliases = set(str(x) for x in oids)
+        cands = [sp[k_] for k_ in ("subvar_id", "elem_id_int", "elem_id_str")
+                 if k_ in sp and str(sp[k_]) not in aliases]
+        if cands:
+            opposing_alias = order["element_id"]
+            order["element_id"] = cands[gen.stratum(ID, i, "spell2", len(cands))]
     dd = tr.setdefault(key, {})
     dd["order"] = order
     if g.chance(0.35):
@@ -198,7 +215,8 @@ def make_case(unit):
     if g.chance(0.25):
         dd["prune"] = True
     return {"template": template, "spec": sim.spec_to_dict(spec), "transforms": tr,
-            "axis": axis, "population": g.pick([1000, 35000]), "mask_size": 0}
+            "axis": axis, "population": g.pick([1000, 35000]), "mask_size": 0,
+            "opposing_alias": opposing_alias}
 
 
 def _cancelling_sums(g, facets, numvar, w):
@@ -290,7 +308,7 @@ def check_case(case):
     return res
 
 
-def _values(res, o, strand, axis, order, partB, d, od, trB, okey):
+def _values(res, o, strand, axis, order, partB, d, od, trB, okey, opposing_alias=None):
     """(element values by base idx, subtotal values by definition idx) or None if unresolvable."""
     kind = order.get("type")
     subsB = expect.resolved_subtotals(o, d, trB.get(
@@ -342,6 +360,9 @@ def _values(res, o, strand, axis, order, partB, d, od, trB, okey):
     osubs = expect.resolved_subtotals(o, od, trB.get(okey))
     if kind == "opposing_element":
         eid = order.get("element_id")
+        if opposing_alias is not None:
+            res.classes.append("opposing_key_respelled")
+            eid = opposing_alias
         if eid not in oids:
             return None
         e = oids.index(eid)
@@ -355,6 +376,11 @@ def _values(res, o, strand, axis, order, partB, d, od, trB, okey):
         ks = [k for k, s in enumerate(osubs) if s["id"] == sid]
         if not ks:
             return None
+        if len(ks) > 1:
+            # two insertions answer to this id (an explicit id equal to the number the
+            # library gives an id-less one): which of them is meant is not defined
+            res.skipped["insertion_id_ambiguous"] += 1
+            return "skip"
         k = ks[0]
         if (k - len(osubs)) not in oo:
             return None
@@ -374,7 +400,8 @@ def _one(res, case, L, t, partT, partB, strand, axis, key, oname, tdim, order, d
     ids, _ = T.transform_ids(o, d)
     subs = expect.resolved_subtotals(o, d, tdim)
     got = read(partT, oname)
-    vals = _values(res, o, strand, axis, order, partB, d, od, trB, okey)
+    vals = _values(res, o, strand, axis, order, partB, d, od, trB, okey,
+                   case.get("opposing_alias"))
     if vals != "skip" and not res.check("order_readable", got.ok, "exception/%s" % oname,
                                         {"exc": repr(got.exc), "order": order}):
         return False
